@@ -203,6 +203,9 @@ let exec (c : sx) : sx = match c with
   | L [A "kripke"; s; s0; r; l] -> of_result of_kripke (mk_kripke (to_nats s) (to_nats s0) (to_list to_pair r) (to_lab l))
   | L [A "kclone"; k] -> of_result of_kripke (kclone (to_kripke k))
   | L [A "substr"; k; v] -> of_result of_kripke (substructure (to_kripke k) (to_nats v))
+  | L [A "kaddnode"; k; v] -> of_result of_kripke (kapply (to_kripke k) (OpNode (to_nat v)))
+  | L [A "kaddedge"; k; s; d] -> of_result of_kripke (kapply (to_kripke k) (OpEdge (to_nat s, to_nat d)))
+  | L [A "labelentry"; k; s] -> of_result (fun l -> L (List.map of_str l)) (label_entry (to_kripke k) (to_nat s))
   | L [A "labels"; k; s] -> of_result (fun l -> L (List.map of_str l)) (labels_r (to_kripke k) (to_nat s))
   | L [A "knext"; k; s] -> of_result of_nats (knext_r (to_kripke k) (to_nat s))
   | L [A "fair"; k; f] -> of_nats (get_fair_states (to_kripke k) (to_list to_nats f))
